@@ -95,7 +95,7 @@ pub fn run(run: &Run) {
     );
     run.assume("the expected consumption is computed from the input bytes only (pattern search, LEN at offset 2, HTYP flags), no crate helper");
     run.regressions(&replay);
-    run.random("consumption", run.cases(120_000, 3_000_000), 0.15, strategy, check);
+    run.random("consumption", run.cases(300_000, 6_000_000), 0.15, strategy, check);
 }
 
 pub fn replay(section: &str, case: &Json) -> Option<CheckResult> {
